@@ -19,7 +19,8 @@
 
    Grain: one action per callback invocation / channel rendezvous of the code.
    Worker-side actions (both walks run the same per-node code):
-     WVisit   visit(c, depth) under visitlk            WFetch    getLinks(ctx, c)
+     WVisit   visit(c, depth) under visitlk            WFetch    getLinks(ctx, c) is called (fetch in flight)
+     WFetchRet getLinks returns the node's own outcome  WFetchCancelled a walk-owned context was cancelled
      WHandle  options.ErrorHandler(c, err) is entered  WCallback one user callback (OnMissing/OnError) runs
      WProvide Provider.StartProviding(c)
    Sequential control: SeqDescend (recursive call for the next link), SeqReturn, SeqErr.
@@ -37,6 +38,7 @@ CONSTANTS Devs,      \* enabled deviations; {} = ideal behaviour only
 
 D6 == "Dev_C12_ParallelRootCid"
 D7 == "Dev_C12_HandlerSelfRecursion"
+HZ == "Haz_C12_CancelledFetchHandled"
 
 VARIABLES cfg,       \* the configuration of the current walk (constant during a walk)
           set,       \* FetchGraphWithDepthLimit's map cid -> recorded depth (-1 = absent) / the cid.Set
@@ -149,17 +151,44 @@ WVisit(w) ==
           ELSE wk' = [wk EXCEPT ![w].pc = "done"] /\ UNCHANGED <<set, visited>>
   /\ UNCHANGED <<cfg, nfetch, local, provided, calls, result, returned, main, stack, nxt, todo, inprog, dev>>
 
+\* getLinks(ctx, c) is called: the fetch is in flight until getLinks returns (WFetchRet / WFetchCancelled)
 WFetch(w) ==
   /\ wk[w].pc = "fetch"
+  /\ nfetch' = [nfetch EXCEPT ![wk[w].c] = @ + 1]
+  /\ wk' = [wk EXCEPT ![w].pc = "infl"]
+  /\ UNCHANGED <<cfg, set, visited, local, provided, calls, result, returned, main, stack, nxt, todo, inprog, dev>>
+
+\* getLinks returns the node's OWN outcome.  The caller's context is live for the whole walk, so what a fetch
+\* returns is a function of the node only -- whatever happened to the other fetches in the meantime.
+WFetchRet(w) ==
+  /\ wk[w].pc = "infl"
   /\ LET c == wk[w].c IN
-     /\ nfetch' = [nfetch EXCEPT ![c] = @ + 1]
-     /\ IF cfg.status[c] = "ok"
-        THEN /\ local' = local \cup {c}                     \* blockservice stores what the exchange delivered
-             /\ wk' = [wk EXCEPT ![w].links = cfg.links[c], ![w].i = 1, ![w].pc = AfterFetch]
-        ELSE /\ UNCHANGED local
-             /\ wk' = IF cfg.hs = <<>> THEN [wk EXCEPT ![w].err = E(c), ![w].pc = "err"]
-                      ELSE [wk EXCEPT ![w].pc = "handle"]
-  /\ UNCHANGED <<cfg, set, visited, provided, calls, result, returned, main, stack, nxt, todo, inprog, dev>>
+     IF cfg.status[c] = "ok"
+     THEN /\ local' = local \cup {c}                       \* blockservice stores what the exchange delivered
+          /\ wk' = [wk EXCEPT ![w].links = cfg.links[c], ![w].i = 1, ![w].pc = AfterFetch]
+     ELSE /\ UNCHANGED local
+          /\ wk' = IF cfg.hs = <<>> THEN [wk EXCEPT ![w].err = E(c), ![w].pc = "err"]
+                   ELSE [wk EXCEPT ![w].pc = "handle"]
+  /\ UNCHANGED <<cfg, set, visited, nfetch, provided, calls, result, returned, main, stack, nxt, todo, inprog, dev>>
+
+\* A walk that is ending (main = "ret": deferred cancel()) MAY have handed its fetches a context of its own and
+\* cancel it; a fetch that honours cancellation then returns ctx.Err().  That is not a failure of the node:
+\* nothing is reported for it (no handler, no callback, no walk error), the worker just exits.
+Cancelled(c) == [k |-> "cancelled", n |-> c]
+WFetchCancelled(w) ==
+  /\ ~IsSeq /\ main = "ret" /\ wk[w].pc = "infl"
+  /\ wk' = [wk EXCEPT ![w].pc = "exit"]
+  /\ UNCHANGED <<cfg, set, visited, nfetch, local, provided, calls, result, returned, main, stack, nxt, todo, inprog, dev>>
+
+\* Hazard (not an as-built deviation; only enabled by MCDagWalkHaz.cfg to show that the invariants exclude it):
+\* the cancellation error of an in-flight sibling is pushed through the error-handler chain like a fetch failure.
+WFetchCancelledHazHandled(w) ==
+  /\ HZ \in Devs /\ ~IsSeq /\ main = "ret" /\ wk[w].pc = "infl" /\ cfg.hs # <<>>
+  /\ LET r   == Compose(cfg.hs, cfg.oer, wk[w].c, wk[w].c, Cancelled(wk[w].c))
+         rec == [wk[w] EXCEPT !.cbq = r.calls, !.herr = r.e, !.pc = "cb"]
+     IN  wk' = [wk EXCEPT ![w] = IF r.calls = <<>> THEN Settle(rec) ELSE rec]
+  /\ dev' = dev \cup {HZ}
+  /\ UNCHANGED <<cfg, set, visited, nfetch, local, provided, calls, result, returned, main, stack, nxt, todo, inprog>>
 
 HandleWith(w, carg) ==
   LET r   == Compose(cfg.hs, cfg.oer, carg, wk[w].c, E(wk[w].c))
@@ -265,7 +294,8 @@ Finish ==
 Terminated == returned /\ UNCHANGED vars
 
 MinIdle(w) == wk[w].pc = "idle" /\ \A v \in Workers : v < w => wk[v].pc # "idle"
-WorkerStep(w) == WVisit(w) \/ WFetch(w) \/ WHandle(w) \/ WHandleDevRoot(w) \/ WHandleDevCrash(w)
+WorkerStep(w) == WVisit(w) \/ WFetch(w) \/ WFetchRet(w) \/ WFetchCancelled(w) \/ WFetchCancelledHazHandled(w)
+                 \/ WHandle(w) \/ WHandleDevRoot(w) \/ WHandleDevCrash(w)
                  \/ WCallback(w) \/ WProvide(w) \/ WProvideDevRoot(w)
 Next == \/ ~returned /\ \E w \in Workers : WorkerStep(w)
         \/ SeqDescend \/ SeqReturn \/ SeqErr
@@ -297,6 +327,12 @@ LocalExact == /\ returned => local \subseteq Local0Of(cfg) \cup (Reach \ Fails)
 HandlerCidRight == \A j \in 1..Len(calls) : calls[j].c = calls[j].at
 HandlerCallsRight == returned =>
      ToSet(calls) \subseteq UNION {ToSet(Compose(cfg.hs, cfg.oer, i, i, E(i)).calls) : i \in Walked \cap Fails}
+\* a handler / callback runs only for a node whose OWN fetch failed, with that node's CID and that fetch's error
+\* (as transformed by the options given before it): a walk that ends early reports nothing for the nodes whose
+\* fetches were merely in flight, and nothing that is not a fetch failure (e.g. its own cancellation)
+HandlerOwnFailure == \A j \in 1..Len(calls) :
+     /\ calls[j].at \in Nodes /\ cfg.status[calls[j].at] # "ok" /\ nfetch[calls[j].at] > 0
+     /\ calls[j] \in ToSet(Compose(cfg.hs, cfg.oer, calls[j].at, calls[j].at, E(calls[j].at)).calls)
 \* the provider is asked to announce exactly the walked nodes, once per fetch
 ProvidedExact == /\ \A i \in Nodes : provided[i] <= nfetch[i]
                  /\ ~cfg.prov => \A i \in Nodes : provided[i] = 0
